@@ -49,6 +49,7 @@ func (s *sched) verify(where string) {
 }
 
 type thread struct {
+	g        uintptr
 	goid     int64
 	id       int
 	name     string
@@ -96,7 +97,17 @@ func get() *sched { return cur }
 // Active reports whether an exploration is executing (the caller is then the baton holder).
 //
 //go:norace
-func Active() bool { s := cur; return s != nil && s.active && s.baton >= 0 }
+func Active() bool {
+	s := cur
+	return s != nil && s.active && s.baton >= 0 && s.threads[s.baton].g == getg()
+}
+
+// mine reports whether the caller is the baton holder.
+//
+//go:norace
+func (s *sched) mine() bool {
+	return s != nil && s.active && s.baton >= 0 && s.threads[s.baton].g == getg()
+}
 
 //go:norace
 func (s *sched) wait(id int) {
@@ -158,7 +169,21 @@ func (s *sched) enabledList(running int) ([]int, bool) {
 func (s *sched) choose(running int, label string) int {
 	en, re := s.enabledList(running)
 	if len(en) == 0 {
-		return -2
+		// nobody can run. If threads remain, a foreign goroutine (daemon) may be holding a lock in
+		// pass-through mode: give it a chance to finish before calling it a deadlock.
+		pending := false
+		for _, t := range s.threads {
+			if !t.finished {
+				pending = true
+			}
+		}
+		for i := 0; pending && i < 5000 && len(en) == 0; i++ {
+			runtime.Gosched()
+			en, re = s.enabledList(running)
+		}
+		if len(en) == 0 {
+			return -2
+		}
 	}
 	lastProgress = time.Now()
 	i := len(s.exec.Points)
@@ -190,10 +215,9 @@ func (s *sched) choose(running int, label string) int {
 //go:norace
 func Point(label string) {
 	s := cur
-	if s == nil || !s.active || s.baton < 0 {
+	if !s.mine() {
 		return
 	}
-	s.verify(label)
 	me := s.baton
 	next := s.choose(me, label)
 	if next != me {
@@ -208,13 +232,12 @@ func Point(label string) {
 //go:norace
 func BlockUntil(label string, can func() bool) {
 	s := cur
-	if s == nil || !s.active || s.baton < 0 {
+	if !s.mine() {
 		return
 	}
 	if can() {
 		return
 	}
-	s.verify(label)
 	me := s.baton
 	t := s.threads[me]
 	t.blocked = can
@@ -243,6 +266,22 @@ func (s *sched) deadlock() {
 	runtime.Goexit()
 }
 
+// Settle gives foreign goroutines (daemons woken by a rendezvous of the running thread) the
+// processor until can() holds or a generous number of yields has passed. Used before blocking on
+// conditions that daemons typically satisfy (WaitGroup joins), so the outcome does not depend on
+// how far the daemon happened to get.
+//
+//go:norace
+func Settle(can func() bool) {
+	s := cur
+	if !s.mine() {
+		return
+	}
+	for i := 0; i < 20000 && !can(); i++ {
+		runtime.Gosched()
+	}
+}
+
 // Yield is an explicit scheduling point for drivers.
 func Yield() { Point("yield") }
 
@@ -268,7 +307,7 @@ func GoStmt(label string, fn func()) {
 		}
 	}
 	if mode == "" {
-		if s.active && s.baton >= 0 {
+		if s.mine() {
 			mode = "thread"
 		} else {
 			mode = "daemon"
@@ -299,7 +338,7 @@ func Go(name string, fn func()) {
 	s.threads = append(s.threads, t)
 	s.realWG.Add(1)
 	go s.runThread(t)
-	if s.active && s.baton >= 0 {
+	if s.mine() {
 		Point("spawn:" + name)
 	}
 }
@@ -307,11 +346,9 @@ func Go(name string, fn func()) {
 //go:norace
 func (s *sched) runThread(t *thread) {
 	defer s.realWG.Done()
+	t.g = getg()
 	s.wait(t.id)
 	t.started = true
-	if Paranoid {
-		t.goid = goid()
-	}
 	defer s.threadExit(t)
 	t.fn()
 }
